@@ -7,8 +7,9 @@ from engine import coq_bool, coq_list
 IMPORTS = ["Lib.Base", "Lib.PyStr", "Model.Session", "Model.SessionCheck"]
 
 
-def one_history(ctx, rng, plan, oidc, roi, observers, label, fixed_ops=None):
-    rs = sess.RealSession(oidc=oidc, revoke_refresh_on_issue=roi)
+def one_history(ctx, rng, plan, oidc, roi, observers, label, fixed_ops=None, rules="explicit"):
+    rs = sess.RealSession(oidc=oidc, revoke_refresh_on_issue=roi, rules=rules)
+    ctx.count("rules:" + rules)
     try:
         if fixed_ops is not None:
             pairs, rec = [], []
@@ -29,7 +30,7 @@ def one_history(ctx, rng, plan, oidc, roi, observers, label, fixed_ops=None):
             if fin:
                 fin(rs, rec)
         term = "(%s, %s, %s, %s)" % (coq_bool(oidc), coq_bool(roi), coq_list(pairs), sess.coq_state(rs))
-        record = {"label": label, "oidc": oidc, "revoke_refresh_on_issue": roi, "ops": rec}
+        record = {"label": label, "oidc": oidc, "revoke_refresh_on_issue": roi, "usage_rules": rules, "ops": rec}
         for op, out in rec:
             ctx.count("op:" + op[0])
             ctx.count("out:" + out[0] + (":" + str(out[1]) if out[0] in ("err", "exc") else ""))
@@ -44,12 +45,13 @@ def run_histories(ctx, n_random, length, observers_factory, structured=(), seed_
     rng = ctx.rng
     cases = []
     k = 0
-    for label, oidc, roi, ops in structured:
-        cases.append(one_history(ctx, rng, None, oidc, roi, observers_factory(), label, fixed_ops=ops))
+    RULES = ["explicit", "implied", "per-client"]
+    for j, (label, oidc, roi, ops) in enumerate(structured):
+        cases.append(one_history(ctx, rng, None, oidc, roi, observers_factory(), label, fixed_ops=ops, rules=RULES[j % 3]))
     for i in range(n_random):
         oidc = (i % 3 != 2)
         roi = (i % 5 == 4)
         plan = sess.gen_history(rng, rng.randint(*length))
-        cases.append(one_history(ctx, rng, plan, oidc, roi, observers_factory(), "%s-%d" % (seed_label, i)))
+        cases.append(one_history(ctx, rng, plan, oidc, roi, observers_factory(), "%s-%d" % (seed_label, i), rules=RULES[(i // 3) % 3]))
     ctx.coq_check_cases(IMPORTS, "hist", "chk_hist", cases, shard=12, label="hist", diag="diag_hist")
     return cases
